@@ -112,7 +112,7 @@ func runFree(c concCase, rep reporter, st *Stats) (outcome string, err error) {
 						out.callErr = firstLine(err.Error())
 					}
 				case to.op == "s:r":
-					if err := s.reg.SettleHodlInvoice(bg, invPreimage); err != nil {
+					if err := s.reg.SettleHodlInvoice(bg, w.kind.rightPreimage()); err != nil {
 						out.callErr = firstLine(err.Error())
 					}
 				}
